@@ -71,19 +71,25 @@ def _names_of_handler(h: ast.ExceptHandler) -> List[str]:
     return out
 
 
-def may_raise(node: ast.AST) -> bool:
+def may_raise(node: ast.AST, attr_raises=None) -> bool:
+    """Can evaluating this statement / expression raise?  Attribute accesses are decided by `attr_raises(attr_node)`
+    when given (property getters/setters and intercepted stores are calls; plain fields of a typed receiver are not)."""
     if isinstance(node, (ast.Pass, ast.Break, ast.Continue, ast.Global, ast.Nonlocal)):
         return False
     for n in ast.walk(node):
-        if isinstance(n, (ast.Call, ast.Attribute, ast.Subscript, ast.BinOp, ast.Raise, ast.Assert, ast.Await,
-                          ast.Yield, ast.YieldFrom, ast.Compare, ast.Delete, ast.Import, ast.ImportFrom)):
+        if isinstance(n, (ast.Call, ast.Subscript, ast.BinOp, ast.Raise, ast.Assert, ast.Await,
+                          ast.Yield, ast.YieldFrom, ast.Delete, ast.Import, ast.ImportFrom)):
             return True
+        if isinstance(n, ast.Attribute):
+            if attr_raises is None or attr_raises(n):
+                return True
     return False
 
 
 class CFG:
     def __init__(self, body: List[ast.stmt], noreturn: Callable[[ast.stmt], bool] = None,
-                 is_subclass: Callable[[str, str], Optional[bool]] = None, name: str = ""):
+                 is_subclass: Callable[[str, str], Optional[bool]] = None, name: str = "",
+                 attr_raises: Callable[[ast.Attribute], bool] = None):
         """noreturn(stmt) -> True if the statement never completes normally (e.g. a call of Runnable.backoff).
         is_subclass(a, b) -> True/False when known, None when unknown (class names as written)."""
         self.name = name
@@ -93,6 +99,7 @@ class CFG:
         self.by_ast: Dict[int, List[Node]] = {}
         self._noreturn = noreturn or (lambda s: False)
         self._is_subclass = is_subclass or (lambda a, b: None)
+        self._attr_raises = attr_raises
         self.entry = self._new("entry", None)
         self.exit = self._new("exit", None)
         self.raise_exit = self._new("raise", None)
@@ -134,7 +141,7 @@ class CFG:
         if isinstance(st, ast.If):
             t = self._new("test", st.test)
             self._connect(preds, t)
-            if may_raise(st.test):
+            if may_raise(st.test, self._attr_raises):
                 self._exc_edges(t, ctx)
             outs = self._block(st.body, [(t.id, "T")], ctx)
             if st.orelse:
@@ -145,7 +152,7 @@ class CFG:
         if isinstance(st, ast.While):
             t = self._new("test", st.test)
             self._connect(preds, t)
-            if may_raise(st.test):
+            if may_raise(st.test, self._attr_raises):
                 self._exc_edges(t, ctx)
             after = self._new("join", None)
             const_true = isinstance(st.test, ast.Constant) and bool(st.test.value) is True
@@ -200,7 +207,7 @@ class CFG:
         n = self._new("stmt", st)
         self._connect(preds, n)
         if isinstance(st, ast.Return):
-            if st.value is not None and may_raise(st.value):
+            if st.value is not None and may_raise(st.value, self._attr_raises):
                 self._exc_edges(n, ctx)
             self._edge(n.id, ctx.ret, None)
             return []
@@ -215,7 +222,7 @@ class CFG:
             if ctx.cont is not None:
                 self._edge(n.id, ctx.cont, None)
             return []
-        if may_raise(st):
+        if may_raise(st, self._attr_raises):
             self._exc_edges(n, ctx)
         if self._noreturn(st):
             return []
@@ -340,9 +347,11 @@ class CFG:
             a = queue[i]
             i += 1
             for (b, lab) in self.succ[a]:
-                if b in parent or not follow(a, b, lab):
+                if not follow(a, b, lab):
                     continue
                 nb = self.nodes[b]
+                if b in parent and not (parent[b] is None and is_target(nb)):
+                    continue        # visited (a source that is also a target can still be re-entered: cycles)
                 if is_target(nb) and not avoid(nb):
                     path = [nb]
                     x = a
